@@ -614,3 +614,211 @@ func ruleMapCopyWriteBack(r *Run, rels []string, floor int) {
 		o.OK("%d modified map-element copies, each stored back or deleted on every path", n)
 	}
 }
+
+// ruleStepSamplesAccumulate (PV-WHOLE): the aggregating step iterators report, for every group,
+// everything they computed for it: the step's sample list is only ever reset and appended to.
+// Cutting the assembled list (a re-slice with an upper bound, a deletion) drops groups or
+// members of a group (topk keeps k per group, not k in total).
+func ruleStepSamplesAccumulate(r *Run, typs []string) {
+	p := r.P
+	for _, tn := range typs {
+		fn := p.Method(metricPkg, tn, "Next")
+		o := r.Ob("PV-WHOLE", "logqlmetric.(*"+tn+").Next samples", "the step's samples are the concatenation of what was computed for every group: the list is only reset and appended to, never cut")
+		if fn == nil || len(fn.Params) != 2 {
+			o.Fail("-", "method not found")
+			continue
+		}
+		grp := funcGroup(fn)
+		isSamplesOfStep := func(addr ssa.Value) bool {
+			f, base, ok := fieldNameOf(addr)
+			return ok && f == "Samples" && originValueIn(base, grp) == ssa.Value(fn.Params[1])
+		}
+		var accum func(v ssa.Value, depth int, seen map[ssa.Value]bool) bool
+		accum = func(v ssa.Value, depth int, seen map[ssa.Value]bool) bool {
+			if depth > 12 || v == nil {
+				return false
+			}
+			if seen[v] {
+				return true
+			}
+			seen[v] = true
+			v = stripTypeOnly(v)
+			switch x := v.(type) {
+			case *ssa.Const:
+				return x.Value == nil
+			case *ssa.MakeSlice:
+				return true
+			case *ssa.Slice:
+				if x.High != nil {
+					if c, ok := constInt(x.High); ok && c == 0 && x.Low == nil {
+						return true
+					}
+				}
+				return false
+			case *ssa.Call:
+				if isAppend(x) && len(x.Call.Args) >= 1 {
+					return accum(x.Call.Args[0], depth+1, seen)
+				}
+				return false
+			case *ssa.Phi:
+				for _, e := range x.Edges {
+					if !accum(e, depth+1, seen) {
+						return false
+					}
+				}
+				return true
+			case *ssa.UnOp:
+				if x.Op != token.MUL {
+					return false
+				}
+				if isSamplesOfStep(x.X) {
+					return true
+				}
+				if al, ok := x.X.(*ssa.Alloc); ok {
+					sts := storesTo(al)
+					if len(sts) == 0 {
+						return true // a nil slice
+					}
+					for _, st := range sts {
+						if !accum(st.Val, depth+1, seen) {
+							return false
+						}
+					}
+					return true
+				}
+			}
+			return false
+		}
+		n := 0
+		bad := false
+		for _, g := range grp {
+			allInstrs(g, func(in ssa.Instruction) {
+				st, ok := in.(*ssa.Store)
+				if !ok || !isSamplesOfStep(st.Addr) {
+					return
+				}
+				n++
+				if !accum(st.Val, 0, map[ssa.Value]bool{}) {
+					bad = true
+					o.Fail(r.pos(st.Pos()), "the step's samples are set to %s, which is not a reset or an append: computed samples can be cut off", describe(st.Val, 1))
+				}
+			})
+		}
+		if n == 0 {
+			o.Fail(r.pos(fn.Pos()), "the step's samples are never written")
+			continue
+		}
+		if !bad {
+			o.OK("%d write(s) of r.Samples, each a reset or an append", n).At(r.pos(fn.Pos()))
+		}
+	}
+}
+
+// ruleIndexLoopDeletion (PV-WHOLE): a loop that walks a slice by index and deletes the current
+// element from that same slice must not advance the index on that iteration, or the element
+// that slid into the freed position is never examined. Instances are discovered: a counting
+// loop `for i := ..; i < len(s); i++` whose body stores a shortened s (slices.Delete, or
+// append(s[:i], s[i+1:]...)) while the index advances by the same step on every path.
+func ruleIndexLoopDeletion(r *Run, rels []string) {
+	p := r.P
+	o := r.Ob("PV-WHOLE", "index loops that delete", "a loop that deletes the current element of the slice it walks by index does not skip the element that takes its place")
+	inScope := map[string]bool{}
+	for _, rel := range rels {
+		inScope[modPath+"/"+rel] = true
+	}
+	nLoops, nDel := 0, 0
+	bad := false
+	for _, fn := range p.SrcFuncs() {
+		pk := pkgOfFunc(fn)
+		if pk == nil || !inScope[pk.Pkg.Path()] {
+			continue
+		}
+		for _, h := range fn.Blocks {
+			if len(h.Instrs) == 0 {
+				continue
+			}
+			ifi, ok := h.Instrs[len(h.Instrs)-1].(*ssa.If)
+			if !ok {
+				continue
+			}
+			cmp, ok := ifi.Cond.(*ssa.BinOp)
+			if !ok || cmp.Op != token.LSS {
+				continue
+			}
+			lenCall, ok := cmp.Y.(*ssa.Call)
+			if !ok {
+				continue
+			}
+			if bi, ok := lenCall.Call.Value.(*ssa.Builtin); !ok || bi.Name() != "len" {
+				continue
+			}
+			idx, ok := cmp.X.(*ssa.Phi)
+			if !ok || idx.Block() != h {
+				continue
+			}
+			// the walked slice lives in a cell that the loop can reassign
+			ld, ok := lenCall.Call.Args[0].(*ssa.UnOp)
+			if !ok || ld.Op != token.MUL {
+				continue
+			}
+			cell := ld.X
+			body := naturalLoop(h)
+			if len(body) < 2 {
+				continue
+			}
+			nLoops++
+			// does the index advance by a plain idx+1 on the back edge?
+			uniform := false
+			for i, pred := range h.Preds {
+				if !body[pred] {
+					continue
+				}
+				if b, ok := idx.Edges[i].(*ssa.BinOp); ok && b.Op == token.ADD && b.X == ssa.Value(idx) {
+					if c, ok := constInt(b.Y); ok && c == 1 {
+						uniform = true
+					}
+				}
+			}
+			for b := range body {
+				for _, in := range b.Instrs {
+					st, ok := in.(*ssa.Store)
+					if !ok || !(st.Addr == cell || describe(st.Addr, 0) == describe(cell, 0)) {
+						continue
+					}
+					call, ok := st.Val.(*ssa.Call)
+					if !ok {
+						continue
+					}
+					removal := false
+					if callee := staticCallee(call); callee != nil {
+						oc := callee
+						if oc.Origin() != nil {
+							oc = oc.Origin()
+						}
+						if oc.Pkg != nil && oc.Pkg.Pkg.Path() == "slices" && (oc.Name() == "Delete" || oc.Name() == "DeleteFunc") {
+							removal = true
+						}
+					}
+					if isAppend(call) && len(call.Call.Args) == 2 {
+						if s0, ok := call.Call.Args[0].(*ssa.Slice); ok && s0.High != nil {
+							if s1, ok := call.Call.Args[1].(*ssa.Slice); ok && s1.Low != nil {
+								removal = true
+							}
+						}
+					}
+					if !removal {
+						continue
+					}
+					nDel++
+					if uniform {
+						bad = true
+						o.Fail(r.pos(st.Pos()), "%s deletes from the slice it walks by index and still advances the index: the element that moves into the freed position is skipped", shortFuncName(fn))
+					}
+				}
+			}
+		}
+	}
+	if !bad {
+		o.OK("%d counting loop(s) over a reassignable slice, %d deleting from it; none skips", nLoops, nDel)
+	}
+}
